@@ -79,6 +79,23 @@ def run(tier: str, seed: int) -> int:
                           ctx=dict(site="pack_partitions_to_parquet", mode="raises", tempmode=mode))
         else:
             runs.append(r)
+    # few distinct sites: empty output partitions BETWEEN non-empty ones in dense patterns ([F,E,F,F], [F,E,E,F,F,..]): the renumbering
+    # step moves several parts, and a part's final name can be the original name of a later part
+    dups = [(8, 4, 2), (9, 6, 3), (10, 7, 3), (8, 5, 2), (12, 6, 4), (9, 4, 3)]
+    for mi, mode in enumerate(("inside", "outside_uuid", "outside_fixed")):
+        for di, (n_, nout, dup) in enumerate(dups):
+            if quick and (di + mi) % 3:
+                continue
+            cfg = Cfg(n=n_, nin=2, nout=nout, mode=mode, seed=seed + 31 + di, dup=dup)
+            r = packfs.run_pack(cfg)
+            chk.count()
+            if r.status != "returned":
+                chk.violation(f"raises|{cfg.key()}", f"pack_partitions_to_parquet raised without any fault: {getattr(r, 'error', '')}; {cfg}", f"# {cfg}",
+                              ctx=dict(site="pack_partitions_to_parquet", mode="raises", tempmode=mode))
+            else:
+                runs.append(r)
+                occ = sorted({k for part in packfs.reference_assign(r) for k in part})
+                chk.notes.setdefault("dup_occupancy", []).append(f"{nout}:{occ}")
     items = [(r, packfs.reference_assign(r), None) for r in runs]
     verdicts = packfs.validate_runs(items)
     recs, meta = [], []
